@@ -46,6 +46,10 @@ def translate(expr, sep, table, what):
     return parts, out
 
 
+def ar_all(repo):
+    return norm(fn_body(read(repo, "crates/core/src/archiver.rs"), "archive"))
+
+
 def gen(repo):
     ps = read(repo, "crates/core/src/archiver/parent.rs")
     body = fn_body(ps, "is_parent")
@@ -147,6 +151,56 @@ def gen(repo):
     if "if !skip_identical_parent || Some(self.snap.tree) != self.parent.tree_id() {" not in ar:
         raise ExtractError("Archiver::archive: skip_identical_parent guard changed")
 
+    # ---- archiver/tree.rs: TreeIterator (shape of next / pop, comp_to_osstr, mode of synthesised directories)
+    tr = read(repo, "crates/core/src/archiver/tree.rs")
+    nx = norm(fn_body(tr, "next"))
+    for frag in ("None => self.pop().then_some(TreeType::EndTree),",
+                 "match path.strip_prefix(&self.path) { Err(_) => { _ = self.pop(); Some(TreeType::EndTree) }",
+                 "Ok(missing_dirs) => { for comp in missing_dirs.components() { self.path.push(comp);",
+                 "if let Some(p) = comp_to_osstr(comp).ok().flatten() { if node.is_dir() && path == &self.path { let (path, node, _) = self.item.take().unwrap(); self.item = self.iter.next(); let name = node.name().into_owned(); return Some(TreeType::NewTree((path, node, name))); }",
+                 "let node = Node::new_node(&p, NodeType::Dir, meta); return Some(TreeType::NewTree(( self.path.clone(), node, p.into_owned(), )));",
+                 "let item = self.item.take().unwrap(); self.item = self.iter.next(); Some(TreeType::Other(item))"):
+        if frag not in nx:
+            raise ExtractError("TreeIterator::next: expected fragment missing: " + frag)
+    m = re.search(r"let meta = Metadata \{ mode: Some\((0o[0-7]+)\), \.\.Default::default\(\) \};", nx)
+    if not m: raise ExtractError("TreeIterator::next: metadata of synthesised directories not understood")
+    synth_mode = int(m.group(1)[2:], 8)
+    pp = norm(fn_body(tr, "pop"))
+    for frag in ("let comp = comps.next_back();", "Some(Component::Prefix(_) | Component::Normal(_)) => { self.path = comps.collect(); return true; }",
+                 "Some(Component::RootDir | Component::ParentDir | Component::CurDir) => {}", "None => return false,"):
+        if frag not in pp:
+            raise ExtractError("TreeIterator::pop: expected fragment missing: " + frag)
+    co = norm(fn_body(read(repo, "crates/core/src/blob/tree.rs"), "comp_to_osstr"))
+    for frag in ("Component::RootDir => None,", "Component::Normal(p) => Some(Cow::Borrowed(p)),", "_ => return Err(TreeErrorKind::ContainsCurrentOrParentDirectory),"):
+        if frag not in co:
+            raise ExtractError("comp_to_osstr: expected fragment missing: " + frag)
+    if 'Some(if node.is_dir() { (snapshot_path, node, open) } else { ( snapshot_path .parent() .expect("file path should have a parent!") .to_path_buf(), node, open, ) })' not in ar_all(repo):
+        raise ExtractError("Archiver::archive: items are no longer (own path for directories, parent path otherwise)")
+    # ---- parent selection: get_parent, SnapshotGroup::matches, default criterion, latest, explicit ids
+    for frag in ("let group = SnapshotGroup::from_snapshot(snap, self.group_by.unwrap_or_default());",
+                 "SnapshotFile::latest( repo.dbe(), |snap| group.matches(snap), &repo.progress_counter(\"\"), ) .ok() .into_iter() .collect()",
+                 "SnapshotFile::from_strs( repo.dbe(), &self.parents, |snap| group.matches(snap), &repo.progress_counter(\"\"), ) .unwrap_or_default()",
+                 ".map(|parent| (parent.tree, parent.id)) .unzip();"):
+        if frag not in gp:
+            raise ExtractError("get_parent: expected fragment missing: " + frag)
+    gr = read(repo, "crates/core/src/repofile/snapshotfile/grouping.rs")
+    mt = norm(fn_body(gr, "matches"))
+    if mt != "self.hostname .as_ref() .is_none_or(|val| val == &snapshot.hostname) && self.label.as_ref().is_none_or(|val| val == &snapshot.label) && self.paths.as_ref().is_none_or(|val| val == &snapshot.paths) && self.tags.as_ref().is_none_or(|val| val == &snapshot.tags)":
+        raise ExtractError("SnapshotGroup::matches no longer compares exactly host, label, paths, tags: " + mt)
+    fs_ = norm(fn_body(gr, "from_snapshot"))
+    if fs_ != "Self { hostname: crit.hostname.then(|| sn.hostname.clone()), label: crit.label.then(|| sn.label.clone()), paths: crit.paths.then(|| sn.paths.clone()), tags: crit.tags.then(|| sn.tags.clone()), }":
+        raise ExtractError("SnapshotGroup::from_snapshot changed: " + fs_)
+    m = re.search(r"impl Default for SnapshotGroupCriterion \{ fn default\(\) -> Self \{ Self \{ hostname: (true|false), label: (true|false), paths: (true|false), tags: (true|false), \} \} \}", norm(gr))
+    if not m: raise ExtractError("Default for SnapshotGroupCriterion not understood")
+    crit_default = m.groups()
+    sf = read(repo, "crates/core/src/repofile/snapshotfile.rs")
+    if ".k_smallest_by(n + 1, |s1, s2| s2.time.cmp(&s1.time))" not in norm(fn_body(sf, "latest_n_from_iter")):
+        raise ExtractError("latest_n_from_iter no longer takes the n+1 snapshots of greatest time")
+    if "Self::latest_n(be, predicate, p, 0)" not in norm(fn_body(sf, "latest")):
+        raise ExtractError("SnapshotFile::latest is no longer latest_n(.., 0)")
+    if "let all_ids = requests.map_results(&[], ids_starts_with, ids); Self::fill_missing(be, Vec::new(), all_ids.as_slice(), |_| true, p)" not in norm(sf):
+        raise ExtractError("SnapshotFile::from_strs: explicit ids are no longer loaded without consulting the predicate")
+
     txt = "(* GENERATED by props/C11/extract.py from crates/core/src/archiver/parent.rs — do not edit *)\n"
     txt += "From Coq Require Import NArith Bool.\n\n"
     txt += "(* let match_ctime = %s *)\n" % " || ".join(ct_src)
@@ -159,10 +213,12 @@ def gen(repo):
     txt += "Definition shortcut_requires_has_tree : bool := %s.\n" % ("true" if shortcut_guarded else "false")
     txt += "\n(* ParentOptions::get_parent: Parent::new(be, index, trees, %s, %s); parameters (.., ignore_ctime, ignore_inode) *)\n" % (args[3], args[4])
     txt += "Definition get_parent_passes (ic ii : bool) : bool * bool := (%s, %s).\n" % (passed[0], passed[1])
-    meta = {"get_parent_passes_to_Parent_new": [args[3], args[4]], "shortcut_requires_has_tree": shortcut_guarded, "match_ctime": " || ".join(ct_src), "match_inode": " || ".join(ino_src), "conjunction": " && ".join(cj_src),
+    txt += "\n(* archiver/tree.rs: mode of the directories TreeIterator synthesises *)\nDefinition synth_mode : N := %d%%N.\n" % synth_mode
+    txt += "\n(* Default for SnapshotGroupCriterion: (host, label, paths, tags) *)\nDefinition crit_default_flags : bool * bool * bool * bool := (%s, %s, %s, %s).\n" % crit_default
+    meta = {"synth_mode": oct(synth_mode), "group_criterion_default(host,label,paths,tags)": list(crit_default), "get_parent_passes_to_Parent_new": [args[3], args[4]], "shortcut_requires_has_tree": shortcut_guarded, "match_ctime": " || ".join(ct_src), "match_inode": " || ".join(ino_src), "conjunction": " && ".join(cj_src),
             "inode_clause_uses_negated_option": "!ignore_inode" in ino_src,
             "shape_checks": ["is_parent peek/find", "p_node loop", "process reuse guard + unwrap + set_dir order", "set_dir sort/dedup/stack",
-                             "backup_tree short-cut + has_tree guard", "FileArchiver::process arms", "get_parent force", "Parent::new parameter order and field initialisation", "archive skip guard"]}
+                             "backup_tree short-cut + has_tree guard", "FileArchiver::process arms", "get_parent force", "Parent::new parameter order and field initialisation", "archive skip guard", "TreeIterator::next / pop, comp_to_osstr, item paths fed by Archiver::archive", "get_parent selection branches, SnapshotGroup::from_snapshot / matches, latest_n_from_iter, from_strs (ids)"]}
     return txt, meta
 
 
